@@ -336,6 +336,9 @@ func c15Families(thorough bool, emit func(c15Doc)) {
 			emit(c15Doc{"F7-quantities", docOf(rootWith(c15Q{Name: "a", Limits: []c15Limit{{Users: []string{"u1"}, MaxRes: map[string]string{key: qv}}}}), "")})
 			emit(c15Doc{"F7-template", docOf(rootWith(c15Q{Name: "p", Parent: &tr, Extra: "childtemplate:\n  resources:\n    max:\n      " + key + ": " + qv + "\n"}), "    placementrules:\n      - name: provided\n        create: true\n")})
 			emit(c15Doc{"F7-template", docOf(rootWith(c15Q{Name: "p", Parent: &tr, Extra: "childtemplate:\n  resources:\n    guaranteed:\n      " + key + ": " + qv + "\n    max:\n      " + key + ": 5\n"}), "")})
+			// a queue that is a parent only because it lists children (no parent flag in the document) loads its template too
+			emit(c15Doc{"F7-template", docOf(rootWith(c15Q{Name: "p", Children: []c15Q{{Name: "x"}}, Extra: "childtemplate:\n  resources:\n    max:\n      " + key + ": " + qv + "\n"}), "")})
+			emit(c15Doc{"F7-template", docOf(rootWith(c15Q{Name: "p", Children: []c15Q{{Name: "x"}}, Extra: "childtemplate:\n  resources:\n    guaranteed:\n      " + key + ": " + qv + "\n"}), "")})
 		}
 	}
 	emit(c15Doc{"F7-template", docOf(rootWith(c15Q{Name: "leaf", Extra: "childtemplate:\n  maxapplications: 2\n"}), "")})
